@@ -28,7 +28,7 @@ import OVM.Refine.GlobalQueries
 -/
 namespace OVM.Props.C01Reach
 open OVM OVM.Kernel
-open OVM.Kernel.Global (GInv ginv_empty ginv_step ginv_run ginv_reachable closed_iff_up historyOKB historyOK_of_B SameDefs
+open OVM.Kernel.Global (GInv ginv_empty ginv_step ginv_run ginv_reachable closed_iff_up historyOKB historyOK_of_B
   same_step same_run same_run_toggles stripBU same_toggle_left same_opOK FaceCyc)
 
 /-- the empty mesh satisfies the global invariant -/
@@ -236,28 +236,28 @@ example :
 
 /-! ## C12 on reachable states: bottom-up incidences are optional
 
-`SameDefs k1 k2` (OVM/Refine/GlobalBU.lean) compares EXACTLY: the vertex count, the lengths of the edge / face / cell
+`Global.SameDefs k1 k2` (OVM/Refine/GlobalBU.lean) compares EXACTLY: the vertex count, the lengths of the edge / face / cell
 arrays, the four deletion-flag arrays, the four pending-deletion counters, the two deletion-mode switches, all
 property columns, and the stored definition of every NOT-deleted edge, face and cell.  It does not compare: the three
 bottom-up caches, which kinds are enabled, the ghost flag of the model, and the stored definitions of entities that
 are flagged deleted (in deferred mode the cache-guided index swaps do not visit them, the linear scans do —
 OVM/Refine/CacheSwapSpec.lean; they are erased by `collect_garbage` before anything reads them).  In immediate mode
-nothing is flagged and `SameDefs` is equality of all definitions (`Global.dOf_eq_of_same`).  -/
+nothing is flagged and `Global.SameDefs` is equality of all definitions (`Global.dOf_eq_of_same`).  -/
 
 /-- **one valid call, any two bottom-up configurations, the WHOLE vocabulary, all four deletion modes**: states that
     agree on everything but the caches are taken to states that agree on everything but the caches, and both keep
     the global invariant (so every enabled cache is the scan).  Immediate deletions: OVM/Refine/GlobalBU3.lean
     (each stage is an explicit function of the cache-free part of the state); `collect_garbage` and the collecting
     `enable_deferred_deletion(false)`: OVM/Refine/GlobalBU4.lean (lockstep over the four sweeps). -/
-theorem bottom_up_optional (k1 k2 : Kernel) (s : SameDefs k1 k2) (i1 : GInv k1) (i2 : GInv k2) (op : Op)
+theorem bottom_up_optional (k1 k2 : Kernel) (s : Global.SameDefs k1 k2) (i1 : GInv k1) (i2 : GInv k2) (op : Op)
     (hok : Global.OpOK k1 op) :
-    SameDefs (k1.step op).1 (k2.step op).1 ∧ GInv (k1.step op).1 ∧ GInv (k2.step op).1 :=
+    Global.SameDefs (k1.step op).1 (k2.step op).1 ∧ GInv (k1.step op).1 ∧ GInv (k2.step op).1 :=
   ⟨same_step s i1 i2 op hok, ginv_step k1 op i1 hok, ginv_step k2 op i2 (same_opOK s op hok)⟩
 
 /-- the same history of valid calls in two bottom-up configurations -/
-theorem bottom_up_optional_history (k1 k2 : Kernel) (ops : List Op) (s : SameDefs k1 k2) (i1 : GInv k1)
+theorem bottom_up_optional_history (k1 k2 : Kernel) (ops : List Op) (s : Global.SameDefs k1 k2) (i1 : GInv k1)
     (i2 : GInv k2) (hr : Global.HistoryOK k1 ops) :
-    SameDefs (k1.run ops) (k2.run ops) ∧ GInv (k1.run ops) ∧ GInv (k2.run ops) :=
+    Global.SameDefs (k1.run ops) (k2.run ops) ∧ GInv (k1.run ops) ∧ GInv (k2.run ops) :=
   same_run ops s i1 i2 hr
 
 /-- **C12's quantifier**: bottom-up kinds "toggled at arbitrary points of every history" — two histories from the
@@ -265,8 +265,8 @@ theorem bottom_up_optional_history (k1 k2 : Kernel) (ops : List Op) (s : SameDef
     meshes with the same definitions, counts, deletion flags and property values -/
 theorem bottom_up_optional_toggled_histories (ops1 ops2 : List Op) (hr : Global.HistoryOK {} ops1)
     (he : stripBU ops1 = stripBU ops2) :
-    SameDefs (run {} ops1) (run {} ops2) ∧ GInv (run {} ops1) ∧ GInv (run {} ops2) :=
-  same_run_toggles ops1 ops2 (SameDefs.refl _) ginv_empty ginv_empty hr he
+    Global.SameDefs (run {} ops1) (run {} ops2) ∧ GInv (run {} ops1) ∧ GInv (run {} ops2) :=
+  same_run_toggles ops1 ops2 (Global.SameDefs.refl _) ginv_empty ginv_empty hr he
 
 /-- `reachHistory` without its last call, with three more toggles inserted: the vertex kind off before the swaps, the
     face kind off before `collect_garbage`, the edge kind off before the immediate deletions -/
@@ -285,7 +285,7 @@ set_option maxRecDepth 1000000 in
     deletion, `collect_garbage` (fast), a fast immediate `delete_edge`, an index-shifting immediate `delete_vertex`, a
     deferred `delete_edge` and the collecting mode switch, once with the caches mostly on and once with all three
     kinds switched off along the way: same two edges on five vertices at the end -/
-example : SameDefs (run {} (reachHistory.take 24)) (run {} reachHistoryToggled) ∧
+example : Global.SameDefs (run {} (reachHistory.take 24)) (run {} reachHistoryToggled) ∧
     (run {} reachHistoryToggled).edges = [(3, 2), (2, 1)] ∧ (run {} reachHistoryToggled).vBU = false ∧
     (run {} reachHistoryToggled).eBU = false ∧ (run {} reachHistoryToggled).fBU = false ∧
     (run {} (reachHistory.take 24)).vBU = true :=
@@ -296,11 +296,11 @@ example : SameDefs (run {} (reachHistory.take 24)) (run {} reachHistoryToggled) 
     cache, and (by `GInv`, kept by the toggle) a re-enabled cache is exactly the scan over the definitions — the
     incidences the mesh would have had if the kind had never been disabled -/
 theorem toggle_is_transparent (k : Kernel) (hi : GInv k) (kind : Nat) (b : Bool) :
-    SameDefs (k.step (.enableBU kind b)).1 k ∧ GInv (k.step (.enableBU kind b)).1 :=
-  ⟨same_toggle_left (SameDefs.refl k) kind b, ginv_step k _ hi trivial⟩
+    Global.SameDefs (k.step (.enableBU kind b)).1 k ∧ GInv (k.step (.enableBU kind b)).1 :=
+  ⟨same_toggle_left (Global.SameDefs.refl k) kind b, ginv_step k _ hi trivial⟩
 
 /-- the argument conditions do not depend on the bottom-up configuration -/
-theorem valid_arguments_ignore_caches (k1 k2 : Kernel) (s : SameDefs k1 k2) (op : Op) (h : Global.OpOK k1 op) :
+theorem valid_arguments_ignore_caches (k1 k2 : Kernel) (s : Global.SameDefs k1 k2) (op : Op) (h : Global.OpOK k1 op) :
     Global.OpOK k2 op := same_opOK s op h
 
 def buPre : List Op :=
@@ -317,17 +317,17 @@ set_option maxRecDepth 1000000 in
 example :
     let k1 := run {} buPre
     let k2 := run {} (buPre ++ [.enableBU 0 false, .enableBU 1 false, .enableBU 2 false])
-    SameDefs (k1.run buOps) (k2.run buOps) ∧ (k1.run buOps).nDelF = 3 ∧ (k2.run buOps).nDelF = 3 ∧
+    Global.SameDefs (k1.run buOps) (k2.run buOps) ∧ (k1.run buOps).nDelF = 3 ∧ (k2.run buOps).nDelF = 3 ∧
     (k2.run buOps).vBU = false ∧ (k2.run buOps).incHfs = [] ∧ (k1.run buOps).vBU = true := by
   have i1 : GInv (run {} buPre) := reach_inv _ (history_test_sound {} _ (by decide))
   have i2 : GInv (run {} (buPre ++ [.enableBU 0 false, .enableBU 1 false, .enableBU 2 false])) :=
     reach_inv _ (history_test_sound {} _ (by decide))
-  have s : SameDefs (run {} buPre) (run {} (buPre ++ [.enableBU 0 false, .enableBU 1 false, .enableBU 2 false])) := by
+  have s : Global.SameDefs (run {} buPre) (run {} (buPre ++ [.enableBU 0 false, .enableBU 1 false, .enableBU 2 false])) := by
     have e : run {} (buPre ++ [.enableBU 0 false, .enableBU 1 false, .enableBU 2 false]) =
         ((((run {} buPre).step (.enableBU 0 false)).1.step (.enableBU 1 false)).1.step (.enableBU 2 false)).1 := by
       unfold run; rw [List.foldl_append]; rfl
     rw [e]
-    exact (same_toggle_left (same_toggle_left (same_toggle_left (SameDefs.refl _) 0 false) 1 false) 2 false).symm
+    exact (same_toggle_left (same_toggle_left (same_toggle_left (Global.SameDefs.refl _) 0 false) 1 false) 2 false).symm
   have hr : Global.HistoryOK (run {} buPre) buOps := history_test_sound _ _ (by decide)
   exact ⟨(bottom_up_optional_history _ _ buOps s i1 i2 hr).1, by decide, by decide, by decide, by decide,
     by decide⟩
